@@ -116,6 +116,22 @@ pub fn gen(seed: u64, thorough: bool) {
         let wf = serde_json::from_slice::<serde_json::Value>(t).is_ok();
         out.line(&format!("c12 {} {}", hex(t), if wf { "w" } else { "m" }));
     }
+    // number items whose dot / exponent stand at the edges of the number skipper's 32-byte blocks, well-formed and with a
+    // malformed tail: the item ends where the longest number token ends, the error comes with the next poll
+    for (k, t) in number_shapes().into_iter().enumerate() {
+        if !thorough && k % 2 == 1 {
+            continue;
+        }
+        let docs: [Vec<u8>; 3] = [
+            [b"[".as_slice(), &t, b"]"].concat(),
+            [b"[1, ".as_slice(), &t, b" ,2]"].concat(),
+            [b"{\"k\":".as_slice(), &t, b",\"l\":1}"].concat(),
+        ];
+        for d in docs.iter() {
+            let wf = serde_json::from_slice::<serde_json::Value>(d).is_ok();
+            out.line(&format!("c12 {} {}", hex(d), if wf { "w" } else { "m" }));
+        }
+    }
     let n = if thorough { 30000 } else { 2500 };
     let cfg = GenCfg { max_depth: 3, max_items: 6, ws: true, dup_keys: true, long_strings: true };
     for _ in 0..n {
